@@ -26,6 +26,7 @@ type Pass1 struct {
 	Client           client.CodegenClient // 中間言語
 	AsmDB            *asmdb.InstructionDB
 	PendingLabels    map[string]bool // 分岐先として参照されたが、まだ定義されていないラベル
+	NearBranches     map[int]bool    // 前回の試行で rel8 に収まらなかった分岐 (ocode の番号) は near 形式で数える
 }
 
 // Eval は AST を走査し、pass1 の処理を実行します。
